@@ -29,10 +29,13 @@ RULE = ("enumerate_cases (exhaustive): each of the 75 built-in line/line_dc/traf
         "Oracle (i) after create_<element>(std_type=name): every type key that is required or a column of the table has "
         "cell == type value (trafo3w.vector_group exempt); (ii) runpp / calc_sc (3ph, and 1ph when all zero-sequence data is "
         "there; max or min case) on the net with the std-type element equal the results of the same net with "
-        "create_*_from_parameters(**type values that the function's signature names); (iii) element created with the old "
+        "create_*_from_parameters(**type values that the function's signature names) - skipped when rule (i) already "
+        "failed for the case (same root cause); line temperature only after add_temperature_coefficient / with explicit "
+        "columns, endtemp_degree for the min case through parameter_from_std_type when create_line made no column; "
+        "(iii) element created with the old "
         "type + change_std_type(new): every type key that is a column after direct creation is a column with the same "
         "value, std_type == new name, all other cells of the row and all other rows unchanged; (iv) create_std_type -> "
-        "load_std_type == data and std_type_exists; overwrite=False keeps, missing required parameter is rejected; "
+        "load_std_type == data, std_type_exists, row of available_std_types; overwrite=False keeps, missing required parameter is rejected; "
         "copy_std_types into an empty net -> load == data; rename_std_type -> load(new) == data, old gone, std_type cells "
         "renamed; delete_std_type -> gone, second delete / load raise UserWarning; the type dictionary is not modified by "
         "any of the above. Fuse: Fuse(fuse_type=name) has rated_i_a == i_rated_a, the documented curve (avg, else "
